@@ -1080,7 +1080,7 @@ impl MutableArchive {
 
         // Encrypt if requested
         if options.encrypt {
-            let base_key = hash_string(archive_name, hash_type::FILE_KEY);
+            let base_key = crate::crypto::file_key(archive_name);
             let key = if options.fix_key {
                 // FIX_KEY: the key is adjusted by the file position and the uncompressed
                 // size, exactly as Archive::read_file derives it
